@@ -1,8 +1,16 @@
 #!/bin/bash
-# Offline setup: nothing to build for the symx engine (pure Python on /venv + z3 binaries).
-# CrossHair is installed on demand by the checks that use it (see checks/crosshair_env.py).
+# Offline setup: overlay venv on top of /venv with the z3 python bindings and CrossHair from the
+# local wheelhouse (no network).  Idempotent.
 set -e
 cd "$(dirname "$0")"
-/venv/bin/python -c "import numpy, sympy, h5py; print('deps ok')"
+if [ ! -x .venv/bin/python ] || ! .venv/bin/python -c "import z3, crosshair" 2>/dev/null; then
+  rm -rf .venv
+  /venv/bin/python -m venv .venv
+  echo "import site; site.addsitedir('/venv/lib/python3.12/site-packages')" \
+      > .venv/lib/python3.12/site-packages/_venv_overlay.pth
+  PIP_NO_INDEX=1 .venv/bin/pip install --no-index --find-links /opt/veriftools/wheels \
+      z3-solver crosshair-tool >/dev/null
+fi
+.venv/bin/python -c "import numpy, sympy, h5py, z3, crosshair, aurel; print('deps ok', z3.get_version_string())"
 /usr/bin/z3 --version
 mkdir -p evidence replays
